@@ -133,10 +133,12 @@ def one_case(ctx, index, rng: random.Random):
     elif spec == "exponential":
         bins_arg = "exponential"
         data = np.abs(data - off) + scale * rng.choice([1e-3, 1.0])
-        if rng.random() < 0.05:
-            data = data[0] * (1 + np.arange(data.size) * 1e-15)  # tiny relative range (known finding)
+        tiny = rng.random() < 0.15
+        if tiny:
+            # relative range of a few ulps: no room for many rising edges (to be refused, never answered with zero-width bins)
+            data = data[0] * (1 + np.arange(data.size) * rng.choice([1e-15, 2.3e-16]))
         mn, mx = float(data.min()), float(data.max())
-        kw["bin_count"] = rng.randint(1, 12)
+        kw["bin_count"] = rng.randint(1, 12) if not tiny else rng.choice([rng.randint(1, 12), int(data.size) + rng.randint(2, 9)])
     elif spec == "edges":
         e = gen.edges(rng, rng.randint(1, 12))
         bins_arg = np.array(e) if rng.random() < 0.7 else np.array(gen.pairs_from_edges(e))
@@ -188,6 +190,11 @@ def one_case(ctx, index, rng: random.Random):
     if raised is not None and spec == "astropy":
         rec.skip("C07.rule", "astropy_rule_refused")  # these rules may refuse small / degenerate samples
         rec.case(desc, False, cls="astropy/refused")
+        return
+    if raised is not None and mech == "exponential.tiny_relative_range" and isinstance(raised, ValueError):
+        # a range that leaves no room for rising edges is an empty-width specification: refusing it is what the statement asks for
+        rec.mon("C07.rule")
+        rec.case(desc, False, cls="exponential/too_narrow_refused")
         return
     if raised is not None:
         rec.mon("C07.rule")
